@@ -1346,7 +1346,22 @@ func ruleNoStateCopy(r *Run) {
 			}
 			for i := 0; i < sig.Results().Len(); i++ {
 				if w, bad := containsOwnedContainer(sig.Results().At(i).Type(), 0); bad {
-					r.Check("F2c", fmt.Sprintf("%s:result[%d]", fn.Name, i), false, fn.Body.Pos(), "result %d of %s returns a struct that owns the container %s by value", i, fn.Name, w)
+					// a constructor that returns a value it has just built (a composite literal) shares nothing
+					fresh := true
+					ast.Inspect(fn.Body, func(nd ast.Node) bool {
+						if _, isLit := nd.(*ast.FuncLit); isLit {
+							return false
+						}
+						if rs, ok := nd.(*ast.ReturnStmt); ok && i < len(rs.Results) {
+							if _, isCL := ast.Unparen(resolveLocal(fn, rs.Results[i], 0)).(*ast.CompositeLit); !isCL {
+								fresh = false
+							}
+						}
+						return true
+					})
+					if !fresh {
+						r.Check("F2c", fmt.Sprintf("%s:result[%d]", fn.Name, i), false, fn.Body.Pos(), "result %d of %s returns a struct that owns the container %s by value", i, fn.Name, w)
+					}
 				}
 			}
 		}
